@@ -673,7 +673,7 @@ def oracle(case, impl, run):
             run.count('unit:several axes')
         return fails[:6]
     if impl['outcome'] != 'ok':
-        fails.append(('end_to_end_no_exception', f"{case['file']}: {impl['outcome']}"))
+        fails.append(('end_to_end_no_exception', f"{case.get('file', case['mode'])}: {impl['outcome']}"))
         return fails
     if case['mode'] == 'listing':
         run.count('listing groups=' + str(min(len(impl['printed']), 9)))
